@@ -273,6 +273,9 @@ func runSchedule(t *testing.T, s Schedule, horizon int, dir string) (res RunResu
 				ss = append(ss, methodsIn(tx.Script))
 			}
 			sort.Strings(ss)
+			if os.Getenv("C13_TRACE") != "" && len(ss) > 0 {
+				fmt.Fprintf(os.Stderr, "TRACE round %d: %v\n", r, ss)
+			}
 			fmt.Fprintf(hsh, "%d:%v;", r, ss)
 			res.Rounds++
 			time.Sleep(blockMs * time.Millisecond)
@@ -581,15 +584,16 @@ type tierCfg struct {
 	repeat       int // repetitions of the default schedule for n >= 4 (uncontrolled map order)
 	twoDevN      int // all two-deviation sleep schedules for this n (0 = none)
 	twoDevStride int
+	staggerNs    []int // committee sizes for the "one member signs early and goes away, the others arrive late" schedules
 }
 
 func tierOf(name string) tierCfg {
 	if name == "thorough" {
 		return tierCfg{ns: []int{1, 2, 3, 4, 5, 6, 7}, sleepNs: []int{1, 2, 3, 4}, sleepLens: []int{1, 3, 150}, crashNs: []int{1, 2, 3, 4}, crashDelays: []int{0, 2, 150}, crashEvery: 1,
-			callCrashNs: []int{2, 3}, callStride: 3, reorderNs: []int{1, 2, 3}, holdNs: []int{1, 2, 3}, holdLens: []int{1, 3, 130}, absentNs: []int{3, 4, 5, 6, 7}, repeat: 16, twoDevN: 2, twoDevStride: 6}
+			callCrashNs: []int{2, 3}, callStride: 3, reorderNs: []int{1, 2, 3}, holdNs: []int{1, 2, 3}, holdLens: []int{1, 3, 130}, absentNs: []int{3, 4, 5, 6, 7}, repeat: 16, twoDevN: 2, twoDevStride: 6, staggerNs: []int{4, 5, 6}}
 	}
 	return tierCfg{ns: []int{1, 2, 3, 4}, sleepNs: []int{1, 2, 3}, sleepLens: []int{1}, longSleepNs: []int{2, 3}, crashNs: []int{1, 2, 3}, crashDelays: []int{0}, crashEvery: 2,
-		callCrashNs: nil, reorderNs: []int{2}, holdNs: []int{1, 2}, holdLens: []int{2}, absentNs: []int{3, 4}, repeat: 3}
+		callCrashNs: nil, reorderNs: []int{2}, holdNs: []int{1, 2}, holdLens: []int{2}, absentNs: []int{3, 4}, repeat: 3, staggerNs: []int{4}}
 }
 
 func minorities(n int) [][]int {
@@ -685,6 +689,9 @@ func TestC13(t *testing.T) {
 				kind = r.Sched.Devs[0].Kind
 				if len(r.Sched.Devs) > 1 {
 					kind += "+" + r.Sched.Devs[1].Kind
+				}
+				if len(r.Sched.Devs) > 1 && r.Sched.Devs[0].Len == 400 {
+					kind = "early-signer-leaves"
 				}
 			}
 			rep.ByKind[fmt.Sprintf("n%d/%s", r.Sched.N, kind)]++
@@ -810,8 +817,40 @@ func TestC13(t *testing.T) {
 				scheds = append(scheds, Schedule{N: n, Devs: []Dev{{Kind: "absent", Set: set}}})
 			}
 		}
+		// one non-leading member takes part in the Notary bootstrap from the start and goes away right after the round in
+		// which the default schedule designates the role (so it has signed by then); all other non-leading members
+		// sleep through the validity window of the shared designation data (150 rounds): the leader holds a signature for the
+		// old data when signatures for the new data come in. Several deviations at once, one fixed shape per member
+		for _, n := range cfg.staggerNs {
+			nr := def(n).NotaryRound
+			if defLen[n] == 0 || nr < 0 {
+				continue
+			}
+			for k := 1; k < n; k++ {
+				// the others fall asleep a few rounds before the default designation (4, 6, 10: before, around and after the
+				// leader publishes the shared data) and sleep through its validity window
+				for _, back := range []int{4, 6, 10} {
+					if nr-back < 1 {
+						continue
+					}
+					devs := []Dev{{Kind: "sleep", Member: k, Round: nr + 1, Len: 400}}
+					for j := 1; j < n; j++ {
+						if j != k {
+							devs = append(devs, Dev{Kind: "sleep", Member: j, Round: nr - back, Len: 150})
+						}
+					}
+					scheds = append(scheds, Schedule{N: n, Devs: devs})
+				}
+				if hz[n] < nr+400+2*defLen[n]+300 {
+					hz[n] = nr + 400 + 2*defLen[n] + 300
+				}
+			}
+		}
 		runAll(scheds, hz)
 		rep.Bound = "all enumerated 1-deviation schedules"
+		if len(cfg.staggerNs) > 0 {
+			rep.Bound += fmt.Sprintf(" and the early-signer-leaves shapes (n-1 simultaneous sleeps) for n=%v", cfg.staggerNs)
+		}
 		// ---- 2 deviations (thorough): pairs of sleeps for the smallest multi-member committee ----
 		if cfg.twoDevN > 0 && len(rep.Violations) == 0 {
 			n := cfg.twoDevN
@@ -829,7 +868,7 @@ func TestC13(t *testing.T) {
 				}
 			}
 			runAll(s2, hz)
-			rep.Bound = fmt.Sprintf("all enumerated 1-deviation schedules; 2-deviation sleep pairs for n=%d on a stride of %d rounds", n, cfg.twoDevStride)
+			rep.Bound += fmt.Sprintf("; 2-deviation sleep pairs for n=%d on a stride of %d rounds", n, cfg.twoDevStride)
 		}
 	}
 	rep.Distinct = len(outcomes)
